@@ -910,7 +910,11 @@ static int write_table(void *context, cif_value_tp *table_value) {
                     FAIL(soft, CIF_INTERNAL_ERROR);
                 }
 
-                if (u_strHasMoreChar32Than(*key, -1, LINE_LENGTH(context) - (LAST_COLUMN(context) + 4))
+                /*
+                 * Start a new line unless the key certainly fits on this one together with the preceding space, the
+                 * widest delimiters (triple quotes) and its colon; lengths in code units, like the column accounting
+                 */
+                if ((u_strlen(*key) > (LINE_LENGTH(context) - (LAST_COLUMN(context) + 8)))
                         && !write_newline(context)) {
                     FAIL(soft, CIF_ERROR);
                 }
